@@ -1,0 +1,51 @@
+//! Verification hooks (cargo feature `verif`, off by default).
+//!
+//! Nothing here changes behaviour unless a simulator explicitly sets the time-slice override
+//! on the current thread; the rest is read-only observation. Compiled out entirely without
+//! the feature.
+
+use std::cell::{Cell, RefCell};
+
+thread_local! {
+    static SLICE_OVERRIDE: Cell<Option<usize>> = const { Cell::new(None) };
+    static FREED_LOG: RefCell<Vec<(u16, usize)>> = const { RefCell::new(Vec::new()) };
+}
+
+/// Override the `max_units` argument of `Executor::step` on this thread (None = no override).
+pub fn set_slice_override(units: Option<usize>) {
+    SLICE_OVERRIDE.with(|c| c.set(units));
+}
+
+pub fn slice_override() -> Option<usize> {
+    SLICE_OVERRIDE.with(|c| c.get())
+}
+
+/// Record that `worker_id`'s executor reclaimed heap slot `index`.
+pub(crate) fn log_freed(worker_id: u16, index: usize) {
+    FREED_LOG.with(|l| l.borrow_mut().push((worker_id, index)));
+}
+
+/// Drain the log of reclaimed slots recorded on this thread since the last call.
+pub fn take_freed_log() -> Vec<(u16, usize)> {
+    FREED_LOG.with(|l| std::mem::take(&mut *l.borrow_mut()))
+}
+
+/// Read-only snapshot of an executor's heap accounting.
+#[derive(Debug, Clone)]
+pub struct HeapView {
+    pub refcounts: Vec<u32>,
+    pub freed: Vec<bool>,
+    pub free: Vec<usize>,
+    pub pending_free: Vec<usize>,
+    /// Heap slots pinned by the constant-binary cache.
+    pub constant_slots: Vec<usize>,
+    pub slots: usize,
+}
+
+/// Read-only snapshot of which processes are parked and why (all sorted).
+#[derive(Debug, Clone, Default)]
+pub struct ParkedView {
+    pub spawning: Vec<usize>,
+    pub selecting: Vec<usize>,
+    pub effecting: Vec<usize>,
+}
